@@ -834,7 +834,7 @@ func (c *c18) runFunctional(P string, kinds []string, seq []int) {
 
 func runC18(id string) int {
 	r := verdict.New(id, *tier, "exploration")
-	r.Rule = "every non-functional property: all operation sequences over {Append, Prepend, Insert(i), Set(i), Remove(i), Swap(i,j), At(i).Set} on IRI values up to a length bound from the empty state and from a deserialised two-element state, plus seeded random sequences (length<=40) mixing every admissible kind, the kind-agnostic <op>Type entry points, SetLanguage on elements and sort.Sort (judged as a permutation); every functional property: all Set-kind/SetIRI/Clear sequences up to length 4 over <=5 kinds; after each step Len, At, forward walk, backward walk, kind flags, typed values and Serialize are compared with a plain Go slice / slot; non-trivial = a completed sequence with >=1 operation; distinct by (property, sequence)"
+	r.Rule = "every non-functional property: all operation sequences over {Append, Prepend, Insert(i), Set(i), Remove(i), Swap(i,j), At(i).Set} on IRI values up to a length bound from the empty state and from a deserialised two-element state, plus seeded random sequences (length<=40) mixing every admissible kind (instants with whole seconds, milliseconds and digits down to the nanosecond), the kind-agnostic <op>Type entry points, SetLanguage on elements and sort.Sort (judged as a permutation); every functional property: all Set-kind/SetIRI/Clear sequences up to length 4 over <=5 kinds; after each step Len, At, forward walk, backward walk, kind flags, typed values and Serialize are compared with a plain Go slice / slot; non-trivial = a completed sequence with >=1 operation; distinct by (property, sequence)"
 	r.Assumptions = []string{"values are distinct per step so an element identifies the operation that stored it", "xsd:anyURI and IRI are one kind for properties ranged over anyURI"}
 	c := &c18{r: r}
 	if *replay != "" {
